@@ -58,6 +58,7 @@ type FuncContract struct {
 	NoReturn bool
 	Inline   bool
 	Modifies []string
+	Frames   []*FrameClause
 	Props    []string
 	File     string
 	Line     int
@@ -67,6 +68,17 @@ type FuncContract struct {
 	Uses []*Clause
 	// Havoc: names of heaps the engine must treat as modified by this function (trusted only)
 	FreshResult bool
+}
+
+// FrameClause: "frame pkg.Type: e1, e2" — among objects of that struct type that existed before the call, only the
+// listed ones may be modified. "frame elems pkg.Type: s1" — among backing arrays with elements of that type, only those of the listed slices.
+type FrameClause struct {
+	TypeKey string
+	Elems   bool
+	Exprs   []CExpr
+	Src     string
+	Line    int
+	File    string
 }
 
 type SpecDef struct {
@@ -111,7 +123,7 @@ type Contracts struct {
 var clauseKW = map[string]bool{
 	"spec": true, "pred": true, "ufun": true, "axiom": true, "lemma": true, "func": true,
 	"requires": true, "ensures": true, "loop": true, "trusted": true, "pure": true, "noreturn": true,
-	"inline": true, "modifies": true, "use": true, "decreases": true, "case": true,
+	"inline": true, "modifies": true, "use": true, "decreases": true, "case": true, "frame": true,
 }
 
 var labelRe = regexp.MustCompile(`^#([A-Za-z0-9_\-:.]+)\s*`)
@@ -299,6 +311,32 @@ func (cs *Contracts) loadFile(path string) error {
 			default:
 				return fmt.Errorf("%s:%d: unknown loop clause %q", path, rc.line, kind)
 			}
+		case "frame":
+			if curF == nil {
+				return fmt.Errorf("%s:%d: frame outside func", path, rc.line)
+			}
+			fcl := &FrameClause{Src: rest, Line: rc.line, File: base}
+			r := rest
+			if strings.HasPrefix(r, "elems ") {
+				fcl.Elems = true
+				r = strings.TrimSpace(strings.TrimPrefix(r, "elems "))
+			}
+			i := strings.Index(r, ":")
+			if i < 0 {
+				return fmt.Errorf("%s:%d: frame needs 'Type: exprs'", path, rc.line)
+			}
+			fcl.TypeKey = strings.TrimSpace(r[:i])
+			for _, es := range splitTopLevel(r[i+1:]) {
+				if es = strings.TrimSpace(es); es == "" {
+					continue
+				}
+				e, err := parseCExpr(es)
+				if err != nil {
+					return fmt.Errorf("%s:%d: %v", path, rc.line, err)
+				}
+				fcl.Exprs = append(fcl.Exprs, e)
+			}
+			curF.Frames = append(curF.Frames, fcl)
 		case "trusted":
 			if curF == nil {
 				return fmt.Errorf("%s:%d: trusted outside func", path, rc.line)
@@ -400,4 +438,24 @@ func parseSpecDef(kw, rest string) (*SpecDef, error) {
 	}
 	sd.Body = e
 	return sd, nil
+}
+
+// splitTopLevel splits on commas that are not nested in parentheses/brackets.
+func splitTopLevel(s string) []string {
+	var out []string
+	d, start := 0, 0
+	for i, c := range s {
+		switch c {
+		case '(', '[':
+			d++
+		case ')', ']':
+			d--
+		case ',':
+			if d == 0 {
+				out = append(out, s[start:i])
+				start = i + 1
+			}
+		}
+	}
+	return append(out, s[start:])
 }
